@@ -84,7 +84,8 @@ class Value(object):
         self.value = value
 
     def __repr__(self):
-        return "<Value: %r>" % self.value
+        # self.value can be a tuple: never hand it to % as the bare right operand
+        return "<Value: %r>" % (self.value,)
 
 
 @asynq()
